@@ -255,7 +255,8 @@ fn honest_oracle(c: &HonestCase, st: &mut Stats) -> Result<(), String> {
     return Err(format!("honest report is not canonical under the documented layout: {}", hex::encode(&mb)));
   }
   let payload_len = 4 + c.m.len() + c.aux.as_ref().map(|a| 4 + a.len()).unwrap_or(0);
-  if rf.ct.len() != payload_len || rf.tag.len() != 32 || rf.trailing != 0 {
+  // the ciphertext chunk may carry more than the payload (e.g. a nonce), never less
+  if rf.ct.len() < payload_len || rf.tag.len() != 32 || rf.trailing != 0 {
     return Err(format!("report field sizes off: |ct|={} (payload {payload_len}) |tag|={}", rf.ct.len(), rf.tag.len()));
   }
   if mb[rf.ct.clone()] != msg.ciphertext.to_bytes()[..] || mb[rf.tag.clone()] != msg.tag[..] || mb[rf.share.clone()] != msg.share.to_bytes()[..] {
